@@ -249,3 +249,15 @@ CHECKS["C05"] = {
              "fact of the token representation). Receiver typing is by isinstance test / annotation / construction inside the same function; reads on untyped receivers named "
              "content elsewhere in the package are out of scope."),
 }
+
+CHECKS["C03"] = {
+    "technique": "static analysis: table agreement (alias table vs ordered token patterns), pairwise regular-language shadowing check of the token table, who-reads rule on the emitter (no positions/tokens), classification of the emitter's output constants against the strict profile, indent arithmetic, token-type-set dataflow in the parser (NEWLINEs exhausted before a child region opens), language inclusion of the lexer's envelope/key lines in octave_write's structure-detection regexes",
+    "text": ("Decides necessary conditions of convergence and of the strict profile: every ASCII alias lexes to the token kind of its canonical operator and is replaced from "
+             "the table; no token pattern is shadowed by an earlier pattern of another kind (582 ordered pairs, automata with witness; the deliberate ===END=== carve-out is "
+             "checked to be the only stolen string); no emitter function reads .line/.column/.tokens or tokens; none of the emitter's output fragments contains a tab, a space next "
+             "to '::', or an ASCII operator alias, the envelope lines and the final newline are unconditional; indentation is two spaces per level, including level-parameterised "
+             "META emitters; at every INDENT test that opens a child region the current token cannot be a NEWLINE (blank lines after headers are skipped by a loop); "
+             "L(===NAME===[ ]*) and L([ ]*KEY::) are included in octave_write's lenient structure detectors; parse_document never requires the envelope."),
+    "note": ("That two concrete spellings of one document yield identical canonical bytes is not decided: it rests on how the hand-written parser groups runtime token streams "
+             "(spaces around ::, optional quotes, one-line vs multi-line lists). R03.1 evaluates the extracted regex constants with the stdlib re module, not repository code."),
+}
